@@ -122,6 +122,39 @@ func c15Check(c C15Case, rec *evid.Rec) error {
 		}
 		rec.Class("walks")
 	}
+	// 2a. the link budget on the transforming walk (identity function): it crosses the same links as the
+	// read-only walk, so a budget below their number must stop it with a budget error after exactly M loads
+	{
+		ident := func(_ traversal.Progress, n datamodel.Node) (datamodel.Node, error) { return n, nil }
+		*real.Loads = (*real.Loads)[:0]
+		_, terr := traversal.Progress{Cfg: cfg()}.WalkTransforming(real.Root, sel, ident)
+		Lt := len(*real.Loads)
+		if terr == nil && Lt > 0 && Lt <= 12 {
+			for M := 0; M <= Lt+1; M++ {
+				*real.Loads = (*real.Loads)[:0]
+				var gerr error
+				gerr = evid.Guard("WalkTransforming", func() error {
+					_, e := traversal.Progress{Cfg: cfg(), Budget: &traversal.Budget{NodeBudget: bigBudget, LinkBudget: int64(M)}}.WalkTransforming(real.Root, sel, ident)
+					return e
+				})
+				loads := len(*real.Loads)
+				if M >= Lt {
+					if gerr != nil || loads != Lt {
+						return fmt.Errorf("WalkTransforming of %s loads %d blocks; with a link budget of %d it made %d loads and returned %v", c.S, Lt, M, loads, gerr)
+					}
+				} else {
+					if gerr == nil || !budgetErr(gerr) {
+						return fmt.Errorf("WalkTransforming of %s loads %d blocks; with a link budget of %d: want ErrBudgetExceeded, got %v (%d loads)", c.S, Lt, M, gerr, loads)
+					}
+					if loads > M {
+						return fmt.Errorf("WalkTransforming of %s with a link budget of %d made %d loads", c.S, M, loads)
+					}
+					binding["transform-link-budget"] = true
+				}
+				rec.Class("walks")
+			}
+		}
+	}
 	// 2b. the link budget on the path-directed functions: for visited paths that cross links, Get and Focus
 	// with a budget of M loads either do exactly what they do without a budget (M suffices) or stop with a
 	// budget error after exactly M loads
@@ -298,7 +331,7 @@ func c15Check(c C15Case, rec *evid.Rec) error {
 
 var c15Part = evid.Part[C15Case]{
 	Prop: "C15", Name: "controls", Quick: 700, Thorough: 280000,
-	Rule: "(graph, selector) from the C07 generators; against the unrestricted WalkAdv: node budget N for every N in 0..V+1, link budget M for every M in 0..L+1 (also on Get and Focus along visited paths that cross links), StartAtPath for every visited path, LinkVisitOnlyOnce, and a loader returning SkipMe for a drawn set of links — each control alone; non-trivial = at least two controls actually bind (N<V, M<L, start index>0, a repeated link, a skipped link that is loaded); distinct by (graph, selector, skip set); the class 'walks' counts restricted walks executed",
+	Rule: "(graph, selector) from the C07 generators; against the unrestricted WalkAdv: node budget N for every N in 0..V+1, link budget M for every M in 0..L+1 (also on WalkTransforming with the identity function, and on Get and Focus along visited paths that cross links), StartAtPath for every visited path, LinkVisitOnlyOnce, and a loader returning SkipMe for a drawn set of links — each control alone; non-trivial = at least two controls actually bind (N<V, M<L, start index>0, a repeated link, a skipped link that is loaded); distinct by (graph, selector, skip set); the class 'walks' counts restricted walks executed",
 	Gen: func(t *rapid.T) C15Case {
 		c := genGraphSelOpt(t, rapid.IntRange(1, 4).Draw(t, "seldepth"), true)
 		if rapid.IntRange(0, 2).Draw(t, "broad") == 0 {
